@@ -32,6 +32,9 @@ func (a *application) start(mode gen.ApplicationMode, options gen.ApplicationOpt
 		return gen.ErrApplicationState
 	}
 
+	// a new life: the reason of the previous stop must not leak into this one
+	a.reason = nil
+
 	// build app env
 	appEnv := make(map[gen.Env]any)
 	// 1. from core env
